@@ -722,7 +722,8 @@ class Object(base.Symbolic, metaclass=ObjectMeta):
     )
     self._sym_attributes.sym_setparent(self)
     self._on_init()
-    self.seal(sealed)
+    if sealed:
+      self.seal(True)
 
   #
   # Events that subclasses can override.
